@@ -36,6 +36,7 @@ type FileExpect struct {
 	MaxFailRate   int               `json:"max_failures_rate"`
 	IgnoreDropped bool              `json:"ignore_dropped"`
 	ParamNames    []string          `json:"param_names"`
+	TwoUsers      bool              `json:"two_users,omitempty"`
 	SlowBodies    bool              `json:"slow_bodies,omitempty"` // iterations outlive their stage: per-stage counts are not judged
 }
 
@@ -183,11 +184,19 @@ func genFileDoc(r *simrt.Rng, now0 int64, forRestart bool) (ydoc, *FileExpect) {
 	if forRestart {
 		n = 2 + r.Intn(4)
 	}
+	twoUsers := r.Intn(10) == 0
+	if twoUsers && n < 2 {
+		n = 2
+	}
+	exp.TwoUsers = twoUsers
 	conc := 6 + r.Intn(10)
 	for i := 0; i < n; i++ {
 		st := ystage{fields: map[string]string{}}
 		fe := FileStageExpect{ID: fmt.Sprintf("stage-%d", i)}
 		mode := simrt.Pick(r, "constant", "constant", "constant", "users", "ramp", "staged", "gaussian")
+		if twoUsers && i < 2 {
+			mode = "users" // two users stages in a row
+		}
 		if m, ok := d.def.fields["mode"]; ok && r.Intn(3) == 0 {
 			mode = m // omitted: taken from the default
 		} else {
@@ -474,6 +483,11 @@ func (h h6) Gen(prop, tier string, r *simrt.Rng) (any, simrt.Config) {
 		if r.Intn(6) == 0 {
 			// iterations that are still running when the next stage (and the one after) has taken over
 			c.Prog.Iter = []IterPlan{{SleepNs: int64(simrt.Pick(r, 150, 450, 1300))*ms + 17}, {SleepNs: 3*ms + 5}}
+			c.File.SlowBodies = true
+		}
+		if c.File.TwoUsers && r.Intn(2) == 0 {
+			// iterations that straddle the pause between two users stages
+			c.Prog.Iter = []IterPlan{{SleepNs: int64(simrt.Pick(r, 35, 90, 260))*ms + 17}}
 			c.File.SlowBodies = true
 		}
 		if r.Intn(4) == 0 {
